@@ -6,5 +6,6 @@ CONSTANTS
   FMenu = {"none", "ren", "expr", "ghostd"}
   VGs = {0}
   EGs = {0}
+  VGModes = {"both"}
 INVARIANTS Emit Symmetric
 CHECK_DEADLOCK FALSE
